@@ -412,8 +412,12 @@ impl WalWriter {
         let file_len = self.file.metadata().map_err(P2PError::Io)?.len();
         let good_len = complete_frames_len(&self.path)?;
         if good_len < file_len {
+            #[cfg(feature = "verif-hooks")]
+            crate::verif_hooks::crash_point("wal.repair.before_truncate");
             self.file.set_len(good_len).map_err(P2PError::Io)?;
             self.file.sync_all().map_err(P2PError::Io)?;
+            #[cfg(feature = "verif-hooks")]
+            crate::verif_hooks::crash_point("wal.repair.after_truncate");
         }
         self.current_size = good_len.min(file_len);
         Ok(())
@@ -1701,11 +1705,15 @@ fn load_or_create_hmac_key(state_dir: &Path) -> Result<Vec<u8>> {
             ))
         })?;
     }
+    #[cfg(feature = "verif-hooks")]
+    crate::verif_hooks::crash_point("key.tmp_written");
     std::fs::rename(&temp_path, &key_path).map_err(|e| {
         P2PError::Storage(StorageError::Database(
             format!("Failed to install HMAC key file: {e}").into(),
         ))
     })?;
+    #[cfg(feature = "verif-hooks")]
+    crate::verif_hooks::crash_point("key.installed");
 
     Ok(key)
 }
